@@ -31,6 +31,10 @@ class C09(Spec):
             "values rendered with dynamic type / pointer identity and the instants they unblock, Get1 vs Get2, late Get2, panics inside Do, number of 'queue is full' log lines, tasks left in C. The driver runs the "
             "same scenario as a timed execution of Got.Model.TaskQ (every transition through TaskQ.step); where the model is "
             "nondeterministic (select with both branches ready) the branch is taken from the observation (trace inclusion). "
+            "Additional ORACLE-ONLY class `stress`: real goroutines on 4 Ps (still under the fake clock), s senders released from a "
+            "spin barrier against a queue with 0/1/2 free slots, stopped or slow consumer, then close; per round: no sender stuck "
+            "after close, accepted-while-open tasks come out exactly once, Get2 correct; the model allows every outcome of this "
+            "race, the driver answers `ok oracle-only`; rounds and outcome distribution are in the statistics (stress_*). "
             "non-trivial = at least one send blocked on a full buffer or a close happened with sends after it")
     trusted_base = ["Go channel FIFO, select and WaitGroup semantics as encoded in Got.Model.TaskQ (modelled, not verified)",
                     "Go runtime faketime clock; blocked senders are served in the order they blocked (driver scheduling policy only; "
@@ -43,6 +47,19 @@ class C09(Spec):
     def oracle(self, script, impl):
         if impl.startswith("panic") or impl.startswith("<"):
             return ("panic", "harness panicked or hung: " + impl[:200])
+        if script.startswith("stress "):
+            # oracle-only class: real goroutines on several Ps race for the last free slots, then close
+            f = dict(x.split("=", 1) for x in impl.split() if "=" in x)
+            if not impl.startswith("stress rounds="):
+                return ("malformed", "unexpected stress output: " + impl[:200])
+            for key, sig, what in (("stuck", "stuck-after-close", "a sender had not returned after close (blocked for good)"),
+                                   ("dropped", "dropped-open", "a task whose send returned while the queue was open never came out of C"),
+                                   ("twice", "twice", "a task came out of C twice"),
+                                   ("getwrong", "get-wrong", "Get2 of an executed task did not return the handler's result"),
+                                   ("overfull", "overfull", "more sends were accepted than there were free slots")):
+                if int(f.get(key, "0")) > 0:
+                    return (sig, "%s in %s of %s rounds; first: %s" % (what, f[key], f.get("rounds"), f.get("first")))
+            return None
         if " | " not in script:
             return None
         head, body = script.split(" | ", 1)
@@ -170,6 +187,8 @@ class C09(Spec):
         return None
 
     def nontrivial(self, script, impl):
+        if script.startswith("stress "):
+            return True
         sec = _sections(impl)
         for w in sec.get("S", []):
             f = w.split(":")
